@@ -256,7 +256,13 @@ func (dec *ttlvReader) LongInteger(tag int) (int64, error) {
 }
 
 func (dec *ttlvReader) BigInteger(tag int) (*big.Int, error) {
+	if err := dec.assertType(TypeBigInteger, tag); err != nil {
+		return nil, err
+	}
 	v := dec.value()
+	if len(v) == 0 {
+		return nil, Errorf("Invalid TTLV length for tag %s. Big integer cannot be empty", TagString(tag))
+	}
 	return bytesToBigInt(v), dec.Next()
 }
 
